@@ -27,8 +27,7 @@ fn main() {
             2
         }
     };
-    if args[1] != "tools-worker" {
-        let _ = std::fs::remove_dir_all(world::scratch_root());
-    }
+    // (the scratch root carries the pid: every process, worker children included, removes its own)
+    let _ = std::fs::remove_dir_all(world::scratch_root());
     std::process::exit(code);
 }
